@@ -35,7 +35,7 @@ class Dummy:
 class Counting(list):
   """unpacker table that counts dispatches (termination budget)"""
   def __init__(self, real, budget, flag):
-    list.__init__(self, real); self.n = 0; self.budget = budget; self.flag = flag; self.spans = []
+    list.__init__(self, real); self.n = 0; self.budget = budget; self.flag = flag; self.spans = []; self.iso = []
   def __getitem__(self, i):
     self.n += 1
     if self.n > self.budget:
@@ -46,6 +46,14 @@ class Counting(list):
     def unpack(raw, offset=0):
       r = f(raw, offset)
       self.spans.append((offset, r[0]))
+      # isolation oracle: decode the same message again from a buffer that *ends* at its declared length - a decoder that looks at
+      # bytes of the following message then fails or yields a different object
+      ln = int((raw[offset + 2] << 8) | raw[offset + 3])
+      try:
+        r2 = f(raw[:offset + ln], offset)
+      except Exception as e:
+        r2 = (None, 'raised ' + type(e).__name__)
+      self.iso.append((r, r2))
       return r
     return unpack
 
@@ -72,6 +80,15 @@ def _repack(msg):
     return msg.pack()
   except Exception:
     return None
+
+
+def isolation_clauses(ctx, table):
+  for (o1, m1), (o2, m2) in table.iso:
+    same = o2 is not None and bool(o1 == o2)
+    if same:
+      b1, b2 = _repack(m1), _repack(m2)
+      same = ctx.Eq(b1, b2) if (b1 is not None and b2 is not None) else (b1 is None and b2 is None and type(m1) is type(m2))
+    ctx.check('a decoded message depends only on the bytes within its declared length', same)
 
 
 def h_controller(ctx, n):
@@ -133,6 +150,7 @@ def h_controller(ctx, n):
       due = sum(1 for a, b in conA.unpackers.spans if bool(data[a + 1] < nh))
       ctx.check('one delivery per decoded frame that has a handler', len(delivered[id(conA)]) == due)
       ctx.check('residual buffer is the unconsumed tail', ctx.Eq(conA.buf, data[consumed:]))
+      isolation_clauses(ctx, conA.unpackers)
       rest = conA.buf
       if len(rest) >= 8:
         ln = (rest[2] << 8) | rest[3]
@@ -193,6 +211,7 @@ def h_switch(ctx, n, big=False):
   ctx.check('I/O loop keeps running', alive)
   ctx.check('sibling connection receives its messages unchanged', got[1] == [(2, b1), (2, b2)])
   ctx.check('sibling connection stays open', not wB.closed)
+  isolation_clauses(ctx, conns[0].unpackers)
   if not wA.closed and not wA._shutdown_send:
     ctx.witness('kept-open')
     rest = wA.receive_buf
